@@ -426,54 +426,98 @@ func runTopo(c *Ctx) {
 	c.R.Add("TOPO", "processes-order-front-to-back", name, p.Pos(tp.Pos()), orderOK, "vertices are processed in the given topological order, front to back", fmt.Sprintf("ok=%v", orderOK))
 	// guard: absent or greater — every path to the update passes `not ok(dist[v])` or `dist[v] > candidate`
 	allowed := map[[2]*ssa.BasicBlock]bool{}
-	core.Instrs(tp, func(in ssa.Instruction) {
-		iff, ok := in.(*ssa.If)
-		if !ok {
-			return
-		}
-		l := core.LitOf(iff.Cond, true)
-		switch {
-		case l.Kind == "ok":
-			if lk, ok := l.Of.(*ssa.Lookup); ok && lk.X == dist && lk.Index == du.Key {
-				s := iff.Block().Succs[1]
-				if !l.Pol {
-					s = iff.Block().Succs[0]
+	// absentOrBetter: the literal (with its polarity) states "no entry for key in dist" or "the entry is greater than cand"
+	absentOrBetter := func(l core.Lit, distV, keyV, candV ssa.Value) bool {
+		isOld := func(v ssa.Value) bool {
+			switch x := v.(type) {
+			case *ssa.Lookup:
+				return x.X == distV && x.Index == keyV
+			case *ssa.Extract:
+				if lk, ok := x.Tuple.(*ssa.Lookup); ok {
+					return lk.X == distV && lk.Index == keyV && x.Index == 0
 				}
-				allowed[[2]*ssa.BasicBlock{iff.Block(), s}] = true
 			}
-		case l.Kind == "cmp" && (l.Op == token.GTR || l.Op == token.LSS || l.Op == token.GEQ || l.Op == token.LEQ):
-			isOld := func(v ssa.Value) bool {
-				switch x := v.(type) {
-				case *ssa.Lookup:
-					return x.X == dist && x.Index == du.Key
-				case *ssa.Extract:
-					if lk, ok := x.Tuple.(*ssa.Lookup); ok {
-						return lk.X == dist && lk.Index == du.Key && x.Index == 0
-					}
+			return false
+		}
+		switch l.Kind {
+		case "ok":
+			lk, ok := l.Of.(*ssa.Lookup)
+			return ok && lk.X == distV && lk.Index == keyV && !l.Pol
+		case "cmp":
+			op := l.Op
+			if !l.Pol {
+				switch op {
+				case token.GTR:
+					op = token.LEQ
+				case token.LSS:
+					op = token.GEQ
+				case token.GEQ:
+					op = token.LSS
+				case token.LEQ:
+					op = token.GTR
+				default:
+					return false
 				}
+			}
+			if isOld(l.X) && l.Y == candV && (op == token.GTR || op == token.GEQ) {
+				return true
+			}
+			if isOld(l.Y) && l.X == candV && (op == token.LSS || op == token.LEQ) {
+				return true
+			}
+		}
+		return false
+	}
+	holds := func(cond ssa.Value, pol bool) bool {
+		l := core.LitOf(cond, pol)
+		if absentOrBetter(l, dist, du.Key, du.Value) {
+			return true
+		}
+		// a predicate helper over (dist, key, candidate)
+		if l.Kind == "call" {
+			cl, _ := l.Of.(*ssa.Call)
+			if cl == nil {
 				return false
 			}
-			var better bool
-			if isOld(l.X) && l.Y == du.Value && (l.Op == token.GTR || l.Op == token.GEQ) {
-				better = true
+			h := cl.Common().StaticCallee()
+			if h == nil || !p.InTarget(h) || len(h.Blocks) == 0 || len(h.Params) != len(cl.Common().Args) {
+				return false
 			}
-			if isOld(l.Y) && l.X == du.Value && (l.Op == token.LSS || l.Op == token.LEQ) {
-				better = true
-			}
-			if better {
-				s := iff.Block().Succs[0]
-				if !l.Pol {
-					s = iff.Block().Succs[1]
+			var pd, pk, pc ssa.Value
+			for i, a := range cl.Common().Args {
+				switch a {
+				case dist:
+					pd = h.Params[i]
+				case du.Key:
+					pk = h.Params[i]
+				case du.Value:
+					pc = h.Params[i]
 				}
-				allowed[[2]*ssa.BasicBlock{iff.Block(), s}] = true
 			}
+			if pd == nil || pk == nil || pc == nil {
+				return false
+			}
+			return core.HelperImplies(h, l.Pol, func(hl core.Lit) bool { return absentOrBetter(hl, pd, pk, pc) })
+		}
+		return false
+	}
+	core.Instrs(tp, func(in ssa.Instruction) {
+		iff, ok := in.(*ssa.If)
+		if !ok || len(iff.Block().Succs) != 2 {
+			return
+		}
+		if holds(iff.Cond, true) {
+			allowed[[2]*ssa.BasicBlock{iff.Block(), iff.Block().Succs[0]}] = true
+		}
+		if holds(iff.Cond, false) {
+			allowed[[2]*ssa.BasicBlock{iff.Block(), iff.Block().Succs[1]}] = true
 		}
 	})
 	var start *ssa.BasicBlock
 	if ki, ok := du.Key.(ssa.Instruction); ok {
 		start = ki.Block()
 	}
-	gated := start != nil && len(allowed) >= 2 && !core.Reachable(start, du.Block(), allowed)
+	gated := start != nil && len(allowed) >= 1 && !core.Reachable(start, du.Block(), allowed)
 	c.R.Add("TOPO", "update-only-if-absent-or-better", name, p.InstrPos(du), gated,
 		"a neighbour's entry is overwritten only when it has none yet or the candidate is smaller (must-pass edges)", fmt.Sprintf("gates=%d ok=%v", len(allowed), gated))
 }
